@@ -17,24 +17,38 @@ def take {α} (x : List α) (idx : List Nat) : List α := idx.filterMap (fun i =
 def maskSelect {α} (x : List α) (m : List Bool) : Except String (List α) :=
   if x.length = m.length then .ok (Py.selectWhere x m) else .error "IndexError"
 
-/-- one write `out[k] = v` -/
-def write {α} (out : List (Option α)) (k : Nat) (v : α) : List (Option α) := out.set k (some v)
-
-/-- `out[idx] = vals` (numpy fancy-index assignment: equal lengths, or a length-1 value is broadcast) -/
-def assignAt {α} (out : List (Option α)) (idx : List Nat) (vals : List α) : Except String (List (Option α)) :=
-  if vals.length = idx.length then
-    .ok ((idx.zip vals).foldl (fun o p => write o p.1 p.2) out)
+/-- the writes `out[idx] = vals` performs, as (index, value) pairs (numpy fancy-index assignment: equal
+    lengths, or a length-1 value is broadcast; anything else is numpy's shape-mismatch `ValueError`) -/
+def pairsFor {α} (idx : List Nat) (vals : List α) : Except String (List (Nat × α)) :=
+  if vals.length = idx.length then .ok (idx.zip vals)
   else match vals with
-    | [v] => .ok (idx.foldl (fun o k => write o k v) out)
+    | [v] => .ok (idx.map (fun k => (k, v)))
     | _ => .error "ValueError"
+
+/-- apply a sequence of writes to a result buffer, in order (a later write to the same index wins) -/
+def applyWrites {α} (out : List (Option α)) (ws : List (Nat × α)) : List (Option α) :=
+  ws.foldl (fun o p => o.set p.1 (some p.2)) out
+
+/-- `List.mapM` for `Except`, written out (first error wins) -/
+def mapE {β γ ε} (f : β → Except ε γ) : List β → Except ε (List γ)
+  | [] => .ok []
+  | b :: bs =>
+    match f b with
+    | .error e => .error e
+    | .ok c =>
+      match mapE f bs with
+      | .error e => .error e
+      | .ok cs => .ok (c :: cs)
 
 /-- a per-window function: the three window samples and the indices (into the full series) they were
     taken at (time information is a function of the index) -/
 abbrev WinFn (α : Type) := List α → List α → List α → List Nat → List Nat → List Nat → Except String (List α)
 
-/-- one iteration of the running-window loop: returns the writes it performs -/
-def windowStep {α} (f : WinFn α) (L S : Int) (doyO doyH doyF : List Int) (obs hist fut : List α)
-    (out : List (Option α)) (c : Int) : Except String (List (Option α)) := do
+/-- one iteration of the running-window loop of `RunningWindowDebiaser.apply_location`: the writes
+    `debiased[indices_bias_corrected_values] = apply_on_window(...)[mask]` it performs.  The loop body reads only
+    the inputs (never the result buffer), so the loop is "compute every iteration's writes, apply them in order". -/
+def windowWrites {α} (f : WinFn α) (L S : Int) (doyO doyH doyF : List Int) (obs hist fut : List α)
+    (c : Int) : Except String (List (Nat × α)) := do
   let iadj := idxAdjust S doyF c
   let iwO := idxWindow L doyO c
   let iwH := idxWindow L doyH c
@@ -42,17 +56,18 @@ def windowStep {α} (f : WinFn α) (L S : Int) (doyO doyH doyF : List Int) (obs 
   let mask := iwF.map (fun j => iadj.contains j)
   let res ← f (take obs iwO) (take hist iwH) (take fut iwF) iwO iwH iwF
   let vals ← maskSelect res mask
-  assignAt out iadj vals
+  pairsFor iadj vals
 
 /-- `RunningWindowDebiaser.apply_location` in running-window mode (also ISIMIP's running-window loop) -/
 def applyLocationRW {α} (f : WinFn α) (L S : Int) (doyO doyH doyF : List Int) (obs hist fut : List α) :
-    Except String (List (Option α)) :=
-  (useCenters S doyF).foldlM (windowStep f L S doyO doyH doyF obs hist fut) (List.replicate fut.length none)
+    Except String (List (Option α)) := do
+  let wss ← mapE (windowWrites f L S doyO doyH doyF obs hist fut) (useCenters S doyF)
+  pure (applyWrites (List.replicate fut.length none) wss.flatten)
 
 /-- `DeltaChange.apply_location` in running-window mode: the loop runs over the days of `obs`, the
     result has the length of `obs`. -/
-def windowStepDC {α} (f : WinFn α) (L S : Int) (doyO doyH doyF : List Int) (obs hist fut : List α)
-    (out : List (Option α)) (c : Int) : Except String (List (Option α)) := do
+def windowWritesDC {α} (f : WinFn α) (L S : Int) (doyO doyH doyF : List Int) (obs hist fut : List α)
+    (c : Int) : Except String (List (Nat × α)) := do
   let iadj := idxAdjust S doyO c
   let iwO := idxWindow L doyO c
   let iwH := idxWindow L doyH c
@@ -60,42 +75,45 @@ def windowStepDC {α} (f : WinFn α) (L S : Int) (doyO doyH doyF : List Int) (ob
   let mask := iwO.map (fun j => iadj.contains j)
   let res ← f (take obs iwO) (take hist iwH) (take fut iwF) iwO iwH iwF
   let vals ← maskSelect res mask
-  assignAt out iadj vals
+  pairsFor iadj vals
 
 def applyLocationDC {α} (f : WinFn α) (L S : Int) (doyO doyH doyF : List Int) (obs hist fut : List α) :
-    Except String (List (Option α)) :=
-  (useCenters S doyO).foldlM (windowStepDC f L S doyO doyH doyF obs hist fut) (List.replicate obs.length none)
+    Except String (List (Option α)) := do
+  let wss ← mapE (windowWritesDC f L S doyO doyH doyF obs hist fut) (useCenters S doyO)
+  pure (applyWrites (List.replicate obs.length none) wss.flatten)
 
 /-- ISIMIP month mode: `out[months == m] = f(obs[months_obs == m], …)` for `m = 1..12` -/
-def monthStep {α} (f : WinFn α) (mO mH mF : List Int) (obs hist fut : List α)
-    (out : List (Option α)) (m : Int) : Except String (List (Option α)) := do
+def monthWrites {α} (f : WinFn α) (mO mH mF : List Int) (obs hist fut : List α)
+    (m : Int) : Except String (List (Nat × α)) := do
   let iO := Py.whereTrue (mO.map (fun x => decide (x = m)))
   let iH := Py.whereTrue (mH.map (fun x => decide (x = m)))
   let iF := Py.whereTrue (mF.map (fun x => decide (x = m)))
   let res ← f (take obs iO) (take hist iH) (take fut iF) iO iH iF
-  assignAt out iF res
+  pairsFor iF res
 
 def applyLocationMonths {α} (f : WinFn α) (mO mH mF : List Int) (obs hist fut : List α) :
-    Except String (List (Option α)) :=
-  (Py.arange1 1 13).foldlM (monthStep f mO mH mF obs hist fut) (List.replicate fut.length none)
+    Except String (List (Option α)) := do
+  let wss ← mapE (monthWrites f mO mH mF obs hist fut) (Py.arange1 1 13)
+  pure (applyWrites (List.replicate fut.length none) wss.flatten)
 
 /-- a per-year-window function (CDFt / QDM `_apply_debiasing_steps` on the future values of the window) -/
 abbrev YearFn (α : Type) := List α → List Nat → Except String (List α)
 
 /-- one iteration of the CDFt / QDM loop over year windows of `cm_future` -/
-def yearStep {α} (g : YearFn α) (L S : Int) (years : List Int) (fut : List α)
-    (out : List (Option α)) (c : Int) : Except String (List (Option α)) := do
+def yearWrites {α} (g : YearFn α) (L S : Int) (years : List Int) (fut : List α)
+    (c : Int) : Except String (List (Nat × α)) := do
   let maskWin := yearMask years (yearsInWindow L c)
   let maskAdj := yearMask years (yearsAdjusted S c)
   let iWin := Py.whereTrue maskWin
   let maskWinAdj := yearMask (Py.selectWhere years maskWin) (yearsAdjusted S c)
   let res ← g (Py.selectWhere fut maskWin) iWin
   let vals ← maskSelect res maskWinAdj
-  assignAt out (Py.whereTrue maskAdj) vals
+  pairsFor (Py.whereTrue maskAdj) vals
 
 def applyYears {α} (g : YearFn α) (L S : Int) (years : List Int) (fut : List α) :
-    Except String (List (Option α)) :=
-  (yearCenters S years).foldlM (yearStep g L S years fut) (List.replicate fut.length none)
+    Except String (List (Option α)) := do
+  let wss ← mapE (yearWrites g L S years fut) (yearCenters S years)
+  pure (applyWrites (List.replicate fut.length none) wss.flatten)
 
 /-! ### Grid map (`Debiaser.apply`, `map_over_locations`, `parallel_map_over_locations`) -/
 
